@@ -1138,7 +1138,7 @@ def run(prog, tier, seed):
                    'node construction is hash-consed (C16)']
     from . import c16
     from ..report import adopt
-    dep = adopt(T.results(T(c16.rule_hc7, prog)), PROP,
+    dep = adopt(T.results(T(c16.rule_hc7, prog), T(c16.rule_hc8, prog)), PROP,
                 'a stale memo entry is a wrong result of the operation')
     return T.results(r1, r2, r3, r4, r5, r6) + dep, expl, assumptions, \
         T.extra()
